@@ -76,7 +76,11 @@ func (self ValueAnyObject) Fields() (map[string]*Value, *VmInterrupt) {
 			return NewValueOption(value), nil
 		}),
 		"get_type": NewValueBuiltinFunction(func(executor Executor, cancelCtx *context.Context, span errors.Span, args ...Value) (*Value, *VmInterrupt) {
-			value := self.FieldsInternal[args[0].(ValueString).Inner]
+			key := args[0].(ValueString).Inner
+			value, found := self.FieldsInternal[key]
+			if !found {
+				return nil, NewVMFatalException(fmt.Sprintf("Value of type 'any-object' has no field named '%s'", key), Vm_IndexOutOfBoundsErrorKind, span)
+			}
 			return NewValueString((*value).Kind().TypeKind().String()), nil
 		}),
 		"keys": NewValueBuiltinFunction(func(executor Executor, cancelCtx *context.Context, span errors.Span, args ...Value) (*Value, *VmInterrupt) {
